@@ -118,8 +118,10 @@ package nodes
 // (errprop, C06: emission stops early either because the limit is reached or because produce failed — and then the
 // error is returned)
 //@   ensures complete: result == nil && stopped() ==> limit != nil && len(OUT) - old(len(OUT)) == deref(limit)
+//@   ascend 1 invariant noerror: !produceFailed() || old(produceFailed())
+//@   ensures errprop: produceFailed() && !old(produceFailed()) ==> result != nil
 //@ func produceOrderByItems$lit1
-//@   loop 1 invariant rows: 0 <= j && j <= itemTyped.Count && len(OUT) == old(len(OUT)) + j && i == old(i) + j && (limit != nil ==> i <= deref(limit)) && outErr == old(outErr)
+//@   loop 1 invariant rows: 0 <= j && j <= itemTyped.Count && len(OUT) == old(len(OUT)) + j && i == old(i) + j && (limit != nil ==> i <= deref(limit)) && outErr == old(outErr) && produceFailed() == old(produceFailed())
 //@   loop 1 invariant emitted: forall(q, old(len(OUT)), len(OUT), !OUT[q].Retraction && OUT[q].Values.base == itemTyped.Values.base && OUT[q].Values.off == itemTyped.Values.off && OUT[q].Values.len == itemTyped.Values.len)
 
 // C05/C06/C15 ORDER BY node: nothing is produced while the input is consumed; every input record updates the
@@ -133,6 +135,7 @@ package nodes
 //@   stream 1 step IN values: stepErr == nil ==> L1_itemTyped.Values.base == lastIn().Values.base && L1_itemTyped.Values.off == lastIn().Values.off && L1_itemTyped.Values.len == lastIn().Values.len || old(thas(recordCounts, now(keycls(L1_itemTyped))))
 //@   stream 1 step IN frame: stepErr == nil && !(limit != nil && o.noRetractionsPossible) ==> forallK(k, k != keycls(L1_itemTyped) ==> thas(recordCounts, k) == old(thas(recordCounts, k)))
 //@   stream 1 step IN pruned: stepErr == nil ==> forallK(k, thas(recordCounts, k) ==> old(thas(recordCounts, k)) || k == keycls(L1_itemTyped))
+//@   stream 1 step IN prunesafe: stepErr == nil && limit != nil && L1_itemTyped.Count > 0 ==> tlen(recordCounts) >= ite(old(tlen(recordCounts)) + ite(old(thas(recordCounts, now(keycls(L1_itemTyped)))), 0, 1) <= deref(limit), old(tlen(recordCounts)) + ite(old(thas(recordCounts, now(keycls(L1_itemTyped)))), 0, 1), deref(limit)) || lastIn().Retraction
 //@   stream 1 step INM silent: len(OUT) == old(len(OUT)) && len(OUTM) == old(len(OUTM))
 //@   ensures errprop: runErr != nil ==> result != nil
 //@   ensures errprop.limit: o.limit != nil && evalErr(deref(o.limit), execCtx) != nil ==> result != nil
